@@ -23,3 +23,18 @@ package directory
 //@ domain not-a-list: !isList(n)
 //@ func (*directory._UnixFSBasicDir).ListIterator
 //@ domain not-a-list: !isList(n)
+
+// C03 / C15: a directory node resolves a path segment or a key node through the NAME it spells
+// (never positionally), and LookupByString looks up exactly the key it was given.
+//@ func (*directory._UnixFSBasicDir).LookupByString
+//@ prop C03 C15
+//@ at return ghost lastKey(n) = key
+//@ ensures looks-up-this-key: lastKey(n) == key
+//@ ensures found-or-error: (err == nil ==> result != nil) && (err != nil ==> result == nil)
+//@ at call utils.Lookup#1 assert scans-its-own-links-for-this-key: callee_key == key && callee_links.x == n._substrate.Links.x
+//@ func (*directory._UnixFSBasicDir).LookupBySegment
+//@ prop C03 C15
+//@ ensures segment-is-looked-up-by-the-name-it-spells: lastKey(n) == segString(seg)
+//@ func (*directory._UnixFSBasicDir).LookupByNode
+//@ prop C03 C15
+//@ ensures key-node-is-looked-up-by-its-string: err == nil ==> lastKey(n) == nodeString(key)
